@@ -72,13 +72,20 @@ theorem silent_reach {o : Lid} {w : World} (h : Silent o w) (p : Pfx) : o ∉ w.
   · rcases List.mem_filterMap.mp hm with ⟨l, _, hl⟩
     exact h.2.1 _ (lookupF_mem hl) rfl
 
-theorem silent_reachTunnel {o : Lid} {w : World} (h : Silent o w) (b : Bool) : o ∉ w.reachTunnel b := by
+theorem mem_of_mem_dedup {l : List Lid} {x : Lid} (h : x ∈ dedup l) : x ∈ l := by
+  induction l with
+  | nil => cases h
+  | cons y ys ih =>
+    simp only [dedup] at h
+    rcases List.mem_cons.mp h with h | h
+    · exact h ▸ List.mem_cons_self
+    · exact List.mem_cons_of_mem _ (ih (List.mem_filter.mp h).1)
+
+theorem silent_reachTunnel {o : Lid} {w : World} (h : Silent o w) (p : Pfx) (b : Bool) : o ∉ w.reachTunnel p b := by
   unfold World.reachTunnel
   intro hm
   rcases List.mem_append.mp hm with hm | hm
-  · split at hm
-    · exact h.1.1 (List.mem_filter.mp hm).1
-    · cases hm
+  · exact absent_recipients h.1 p (List.mem_filter.mp (mem_of_mem_dedup hm)).1
   · rcases List.mem_filterMap.mp hm with ⟨l, _, hl⟩
     exact h.2.1 _ (lookupF_mem hl) rfl
 
@@ -88,8 +95,8 @@ theorem silent_touched {o : Lid} {w : World} (h : Silent o w) (p : Pfx) : o ∉ 
   simp only [List.mem_append] at hm
   rcases hm with ((hm | hm) | hm) | hm
   · exact silent_reach h p hm
-  · exact silent_reachTunnel h true hm
-  · exact silent_reachTunnel h false hm
+  · exact silent_reachTunnel h p true hm
+  · exact silent_reachTunnel h p false hm
   · cases hr : w.tunnelRef with
     | none => simp [hr] at hm
     | some x => simp [hr] at hm; exact h.2.2 (by rw [hr, hm])
